@@ -112,6 +112,11 @@ TSigs == {
     Sig("funT0", "T", "fun(): ~1", <<"A">>),
     Sig("funT2", "T", "fun(~1, ~2): ~3", <<"A", "A", "A">>),
     Sig("vfunT", "T", "view fun(~1): ~2", <<"A", "A">>),
+    Sig("vfunT0", "T", "view fun(): ~1", <<"A">>),
+    \* function types WITHOUT a return type annotation (in parentheses: a following `:` must not be read as theirs)
+    Sig("funT-noret1", "T", "(fun(~1))", <<"A">>),
+    Sig("funT-noret2", "T", "(fun(~1, ~2))", <<"A", "A">>),
+    Sig("vfunT-noret1", "T", "(view fun(~1))", <<"A">>),
     Sig("refT",  "T", "&(~1)", <<"T">>),
     Sig("auth1", "T", "auth($T) &(~1)", <<"T">>),
     Sig("authC", "T", "auth($T, $T) &(~1)", <<"T">>),
@@ -122,6 +127,7 @@ TSigs == {
     Sig("res",   "A", "@~1", <<"T">>) }
 TAtomsCore == { Sig("nom", "T", "$T", <<>>) }
 TAtomsMore == { Sig("qual", "T", "$T.$T", <<>>), Sig("qual3", "T", "$T.$T.$T", <<>>),
+                Sig("funT-noret0", "T", "(fun())", <<>>), Sig("vfunT-noret0", "T", "(view fun())", <<>>),
                 Sig("inter1", "T", "{$T}", <<>>), Sig("inter2", "T", "{$T, $T}", <<>>), Sig("inter0", "T", "{}", <<>>) }
 
 \* ------------------------------------------------------------------- statements
